@@ -85,3 +85,15 @@ Definition in_window_nsb (t tref : Z) : bool :=
   (- 2147483648 * nanos_per_sec <=? t - tref) && (t - tref <? 2147483648 * nanos_per_sec).
 Definition C04_roundtrip_ns_ok (t tref back : Z) : bool :=
   if in_window_nsb t tref && (0 <=? time_sec tref) then (t - 1 <=? back) && (back <=? t) else true.
+
+(* Oracle for the decoding direction (all 2^32 seconds fields, all 2^32 fractions), written from
+   the property text in plain integer arithmetic: the decoded time lies in the reference's
+   window, names the timestamp's seconds modulo an era, and its nanosecond is the timestamp's
+   fraction truncated to whole nanoseconds. *)
+Definition C04_decode_ok (s f tref back : Z) : bool :=
+  if (0 <=? time_sec tref) && (time_sec tref <? 1152921504606846976) then
+    (- 2147483648 <=? time_sec back - time_sec tref) && (time_sec back - time_sec tref <? 2147483648)
+    && ((time_sec back - ntp_epoch) mod 4294967296 =? s)
+    && (time_nsec back * 4294967296 <=? f * nanos_per_sec)
+    && (f * nanos_per_sec <? (time_nsec back + 1) * 4294967296)
+  else true.
